@@ -9,6 +9,7 @@ import (
 )
 
 type time_Time = time.Time
+type gometricsGauge = gometrics.Gauge
 
 // VerifC10_Resource: one operation on an arbitrary resource counter.
 func VerifC10_Resource() {
